@@ -377,6 +377,11 @@ def make_pre_dataset(m, conflict):
         pool = [v for v in G.POOLS["int"] + G.POOLS["float"] + G.POOLS["str"]
                 if type(v) is type(coords[a0][0]) and v not in coords[a0]]
         coords[a0] = pool[:2] if pool else coords[a0]
+    elif len(coords[a0]) >= 2 and m.tape.flag(1, 2, "partial-conflict"):
+        # the earlier data covers only part of the crop's grid (and conflicts there)
+        k = m.tape.int_between(1, len(coords[a0]) - 1, "partial-conflict-n")
+        coords[a0] = m.tape.perm(coords[a0], "partial-conflict-which")[:k]
+        m.ctx.stats["partial-conflict"] += 1
     shape = [len(coords[a]) for a in names]
     data = {}
     for o in outs:
